@@ -1,0 +1,211 @@
+//go:build verif
+
+package sessions
+
+import "github.com/mdzio/go-mqtt/message"
+
+// Machine-checked contracts for package sessions (verification build only); read by /verif/govc.
+
+//@ property C13 roots newAckqueue, (*Ackqueue).Wait, (*Ackqueue).Ack, (*Ackqueue).Acked, (*Ackqueue).insert, (*Ackqueue).removeHead, (*Ackqueue).grow, (*Ackqueue).index, (*Ackqueue).increment, (*Ackqueue).full, (*Ackqueue).empty, (*Ackqueue).len, (*Ackqueue).cap, powerOfTwo64
+
+func vspecWrap(x int64, size int64) int64 {
+	if x >= size {
+		return x - size
+	}
+	return x
+}
+
+// position in FIFO order of slot x
+func vspecUnwrap(x int64, head int64, size int64) int64 {
+	if x >= head {
+		return x - head
+	}
+	return x - head + size
+}
+
+// slot i (0 <= i < size) is occupied
+func vspecInRing(i int64, head int64, count int64, size int64) bool {
+	return (head <= i && i < head+count) || i < head+count-size
+}
+
+// states after which an entry is released by Acked
+func vspecTerminal(s message.Type) bool {
+	return s == message.PUBACK || s == message.PUBREL || s == message.PUBCOMP || s == message.SUBACK || s == message.UNSUBACK
+}
+
+func vspecAckType(s message.Type) bool {
+	return s == message.PUBACK || s == message.PUBREC || s == message.PUBREL || s == message.PUBCOMP || s == message.SUBACK || s == message.UNSUBACK
+}
+
+// Assumed: the package-level error values are never reassigned (they are initialised with errors.New).
+//@ axiom errvars
+//@   is errQueueEmpty != nil && errWaitMessage != nil && errAckMessage != nil
+
+// Representation invariant of the ack queue: a power-of-two ring holding `count` entries from `head`, and an index
+// emap: packet id -> slot that is exactly the inverse of slot -> ring[slot].Pktid on the occupied slots.
+//@ define vdefAQ(aq)
+//@   is aq.size >= 1 && pow2(aq.size) && aq.size <= 1099511627776 && aq.mask == aq.size-1 && len(aq.ring) == int(aq.size) && aq.emap != nil
+//@      && 0 <= aq.head && aq.head < aq.size && 0 <= aq.tail && aq.tail < aq.size && 0 <= aq.count && aq.count <= aq.size
+//@      && aq.tail == vspecWrap(aq.head+aq.count, aq.size) && (arr(aq.ackdone) != arr(aq.ring) || cap(aq.ackdone) == 0)
+//@      && forall(0, int(aq.size), func(i int) bool { return vspecInRing(int64(i), aq.head, aq.count, aq.size) ==> haskey(aq.emap, aq.ring[i].Pktid) && aq.emap[aq.ring[i].Pktid] == int64(i) }, "AckMsg.Pktid")
+//@      && forall(0, 65536, func(k int) bool { return haskey(aq.emap, k) ==> 0 <= aq.emap[k] && aq.emap[k] < aq.size && vspecInRing(aq.emap[k], aq.head, aq.count, aq.size) && int(aq.ring[aq.emap[k]].Pktid) == k })
+
+// The abstract view: the j-th oldest in-flight request (0 <= j < count).
+//@ define vdefView(aq, j)
+//@   is aq.ring[vspecWrap(aq.head+int64(j), aq.size)]
+
+//@ func (*Ackqueue).index
+//@   pure
+//@   requires pow2(aq.mask+1) && n >= 0
+//@   ensures 0 <= result && result <= aq.mask && (n <= aq.mask ==> result == n) && (n == aq.mask+1 ==> result == 0)
+
+//@ func (*Ackqueue).increment
+//@   pure
+//@   requires pow2(aq.mask+1) && 0 <= n && n <= aq.mask && aq.mask <= 4611686018427387904
+//@   ensures result == vspecWrap(n+1, aq.mask+1)
+
+//@ func (*Ackqueue).full
+//@   pure
+//@   ensures result == (aq.count == aq.size)
+
+//@ func (*Ackqueue).empty
+//@   pure
+//@   ensures result == (aq.count == 0)
+
+//@ func (*Ackqueue).len
+//@   pure
+//@   ensures result == int(aq.count)
+
+//@ func (*Ackqueue).cap
+//@   pure
+//@   ensures result == int(aq.size)
+
+//@ func powerOfTwo64
+//@   pure
+//@   requires n >= 0
+//@   ensures result == (n >= 1 && pow2(n))
+
+// 64-bit bit trick; its contract is assumed (QF_BV lemma in /verif/lemmas, hand-transcribed body)
+//@ func roundUpPowerOfTwo64
+//@   trusted
+//@   pure
+//@   requires 1 <= n && n <= 4611686018427387904
+//@   ensures pow2(result) && result >= n && result < 2*n
+
+//@ func (*Ackqueue).removeHead
+//@   results err
+//@   requires vdefAQ(aq)
+//@   ensures[C13:wf] vdefAQ(aq)
+//@   ensures[C13:empty] old(aq.count) == 0 ==> err != nil && aq.count == 0 && aq.head == old(aq.head)
+//@   ensures[C13:pop] old(aq.count) > 0 ==> err == nil && aq.count == old(aq.count)-1 && aq.head == vspecWrap(old(aq.head)+1, aq.size) && aq.size == old(aq.size) && sameslice(aq.ring, old(aq.ring)) && aq.emap == old(aq.emap)
+//@   ensures[C13:rest] forall(0, int(aq.size), func(i int) bool { return int64(i) != old(aq.head) ==> aq.ring[i] == old(aq.ring[i]) })
+//@   modifies aq.head, aq.count, elems(aq.ring), mapof(aq.emap)
+
+// grow: double the ring, keep the FIFO order, rebuild the index.
+//@ func (*Ackqueue).grow
+//@   requires vdefAQ(aq) && aq.count == aq.size && aq.size <= 549755813888
+//@   loop 1 invariant 0 <= i && i <= aq.tail && aq.tail == aq.count && aq.head == 0 && aq.size == 2*old(aq.size) && aq.mask == aq.size-1 && len(aq.ring) == int(aq.size) && aq.count == old(aq.count) && aq.emap != nil && fresh(aq.emap) && fresh(arr(aq.ring))
+//@   loop 1 invariant[maps] preservedmaps(aq.emap)
+//@   loop 1 invariant[rev] forall(0, int(old(aq.size)), func(x int) bool { return aq.ring[vspecUnwrap(int64(x), old(aq.head), old(aq.size))].Pktid == old(aq.ring[x].Pktid) }, "Pktid@0")
+//@   loop 1 invariant[v1] forall(0, int(aq.count), func(j int) bool { return aq.ring[j].Mtype == old(vdefView(aq, j)).Mtype && aq.ring[j].State == old(vdefView(aq, j)).State && aq.ring[j].Pktid == old(vdefView(aq, j)).Pktid })
+//@   loop 1 invariant[v2] forall(0, int(aq.count), func(j int) bool { return aq.ring[j].Msgbuf == old(vdefView(aq, j)).Msgbuf })
+//@   loop 1 invariant[v3] forall(0, int(aq.count), func(j int) bool { return aq.ring[j].Ackbuf == old(vdefView(aq, j)).Ackbuf })
+//@   loop 1 invariant[v4] forall(0, int(aq.count), func(j int) bool { return aq.ring[j].OnComplete == old(vdefView(aq, j)).OnComplete })
+//@   loop 1 invariant forall(0, int(i), func(j int) bool { return haskey(aq.emap, aq.ring[j].Pktid) && aq.emap[aq.ring[j].Pktid] == int64(j) })
+//@   loop 1 invariant forall(0, 65536, func(k int) bool { return haskey(aq.emap, k) ==> 0 <= aq.emap[k] && aq.emap[k] < i && int(aq.ring[aq.emap[k]].Pktid) == k })
+//@   loop 1 decreases aq.tail - i
+//@   ensures[C13:wf] vdefAQ(aq)
+//@   ensures[C13:size] aq.size == 2*old(aq.size) && aq.count == old(aq.count) && aq.head == 0 && fresh(arr(aq.ring)) && fresh(aq.emap)
+//@   ensures[C13:view] forall(0, int(aq.count), func(j int) bool { return aq.ring[j] == old(vdefView(aq, j)) })
+//@   ensures[C13:keys] forall(0, 65536, func(k int) bool { return haskey(aq.emap, k) == old(haskey(aq.emap, k)) })
+//@   modifies aq.size, aq.mask, aq.ring, aq.head, aq.tail, aq.emap
+
+//@ func newAckqueue
+//@   requires 1 <= n && n <= 1073741824
+//@   ensures[C13:wf] vdefAQ(result) && result.count == 0 && fresh(result)
+
+// insert: registers msg under pktid at the tail unless the id is already in flight (then nothing changes).
+//@ func (*Ackqueue).insert
+//@   results err
+//@   requires vdefAQ(aq) && aq.size <= 549755813888 && msg != nil && ifaceval(msg, *message.header) != nil
+//@   requires int(pktid) == message.vspecPacketID(ifaceval(msg, *message.header).packetID) && len(ifaceval(msg, *message.header).mtypeflags) == 1
+//@   ensures[C13:wf] vdefAQ(aq)
+//@   ensures[C13:dup] old(haskey(aq.emap, pktid)) ==> aq.count == old(aq.count)
+//@   ensures[C13:fail] !old(haskey(aq.emap, pktid)) && err != nil ==> aq.count == old(aq.count)
+//@   ensures[C13:push] !old(haskey(aq.emap, pktid)) && err == nil ==> aq.count == old(aq.count)+1
+//@   ensures[C13:v1] forall(0, int(old(aq.count)), func(j int) bool { return vdefView(aq, j).Mtype == old(vdefView(aq, j)).Mtype && vdefView(aq, j).State == old(vdefView(aq, j)).State && vdefView(aq, j).Pktid == old(vdefView(aq, j)).Pktid })
+//@   ensures[C13:v2] forall(0, int(old(aq.count)), func(j int) bool { return vdefView(aq, j).Msgbuf == old(vdefView(aq, j)).Msgbuf })
+//@   ensures[C13:v3] forall(0, int(old(aq.count)), func(j int) bool { return vdefView(aq, j).Ackbuf == old(vdefView(aq, j)).Ackbuf })
+//@   ensures[C13:v4] forall(0, int(old(aq.count)), func(j int) bool { return vdefView(aq, j).OnComplete == old(vdefView(aq, j)).OnComplete })
+//@   ensures[C13:geom] (old(aq.count == aq.size) ==> aq.head == 0 && aq.size == 2*old(aq.size)) && (!old(aq.count == aq.size) ==> aq.head == old(aq.head) && aq.size == old(aq.size))
+//@   ensures[C13:slots] forall(0, int(old(aq.size)), func(x int) bool { return old(vspecInRing(int64(x), aq.head, aq.count, aq.size)) ==> aq.ring[ite(old(aq.count == aq.size), vspecUnwrap(int64(x), old(aq.head), old(aq.size)), int64(x))] == old(aq.ring[x]) }, "@0")
+//@   ensures[C13:entry] !old(haskey(aq.emap, pktid)) && err == nil ==> vdefView(aq, old(aq.count)).Pktid == pktid && vdefView(aq, old(aq.count)).State == message.RESERVED && vdefView(aq, old(aq.count)).OnComplete == onComplete
+//@        && fresh(arr(vdefView(aq, old(aq.count)).Msgbuf)) && len(vdefView(aq, old(aq.count)).Ackbuf) == 0
+//@   ensures[C13:bufs] preservedarrays(aq.ring[0].Msgbuf)
+//@   modifies aq.size, aq.mask, aq.ring, aq.head, aq.tail, aq.count, aq.emap, elems(aq.ring), mapof(aq.emap), heap("F.message.header.remlen"), heap("F.message.header.dirty"), heap("F.message.header.packetID"), message.gPacketID
+
+// ---- locks (DESIGN 2.5): Lock requires the lock not to be held by this goroutine, Unlock requires it held;
+// every function must return with the locks it entered with.
+//@ extern (*sync.Mutex).Lock
+//@   pure
+//@   flag lock acquire
+//@ extern (*sync.Mutex).Unlock
+//@   pure
+//@   flag lock release
+
+// Ack: records an acknowledgement. Only the entry with that packet id changes (state and ack bytes).
+//@ func (*Ackqueue).Ack
+//@   results err
+//@   requires vdefAQ(aq) && msg != nil && ifaceval(msg, *message.header) != nil && len(ifaceval(msg, *message.header).mtypeflags) == 1 && !held(addr(aq.mu))
+//@   ensures[C13:wf] vdefAQ(aq) && aq.count == old(aq.count) && aq.head == old(aq.head) && aq.size == old(aq.size) && sameslice(aq.ring, old(aq.ring)) && aq.emap == old(aq.emap)
+//@   ensures[C13:keep] forall(0, int(aq.size), func(i int) bool { return aq.ring[i].Mtype == old(aq.ring[i].Mtype) && aq.ring[i].Pktid == old(aq.ring[i].Pktid) && aq.ring[i].Msgbuf == old(aq.ring[i].Msgbuf) && aq.ring[i].OnComplete == old(aq.ring[i].OnComplete) })
+//@   ensures[C13:others] forall(0, int(aq.size), func(i int) bool { return !(old(haskey(aq.emap, message.vspecPacketID(ifaceval(msg, *message.header).packetID))) && int64(i) == old(aq.emap[message.vspecPacketID(ifaceval(msg, *message.header).packetID)])) ==> aq.ring[i].State == old(aq.ring[i].State) && aq.ring[i].Ackbuf == old(aq.ring[i].Ackbuf) })
+//@   ensures[C13:unknown] !old(haskey(aq.emap, message.vspecPacketID(ifaceval(msg, *message.header).packetID))) || !vspecAckType(old(message.Type(ifaceval(msg, *message.header).mtypeflags[0]>>4))) ==> forall(0, int(aq.size), func(i int) bool { return aq.ring[i].State == old(aq.ring[i].State) && aq.ring[i].Ackbuf == old(aq.ring[i].Ackbuf) })
+//@   ensures[C13:known] old(haskey(aq.emap, message.vspecPacketID(ifaceval(msg, *message.header).packetID))) && vspecAckType(old(message.Type(ifaceval(msg, *message.header).mtypeflags[0]>>4))) ==> aq.ring[old(aq.emap[message.vspecPacketID(ifaceval(msg, *message.header).packetID)])].State == old(message.Type(ifaceval(msg, *message.header).mtypeflags[0]>>4)) && fresh(arr(aq.ring[old(aq.emap[message.vspecPacketID(ifaceval(msg, *message.header).packetID)])].Ackbuf))
+//@   ensures[C13:bufs] preservedarrays(aq.ring[0].Msgbuf)
+//@   modifies elems(aq.ring), aq.ping, heap("F.message.header.remlen"), heap("F.message.header.dirty"), heap("F.message.header.packetID"), message.gPacketID
+
+// Wait: registers a request (PUBLISH QoS>0, SUBSCRIBE, UNSUBSCRIBE by packet id; PINGREQ in the ping slot).
+//@ func (*Ackqueue).Wait
+//@   results err
+//@   requires vdefAQ(aq) && aq.size <= 549755813888 && msg != nil && ifaceval(msg, *message.header) != nil && len(ifaceval(msg, *message.header).mtypeflags) == 1 && !held(addr(aq.mu))
+//@   requires typeis(msg, *message.PingreqMessage) ==> ifaceval(msg, *message.header).remlen == 0 && ifaceval(msg, *message.header).dirty
+//@   ensures[C13:wf] vdefAQ(aq)
+//@   ensures[C13:count] aq.count == old(aq.count) || (aq.count == old(aq.count)+1 && err == nil && !old(haskey(aq.emap, message.vspecPacketID(ifaceval(msg, *message.header).packetID))))
+//@   ensures[C13:dup] old(haskey(aq.emap, message.vspecPacketID(ifaceval(msg, *message.header).packetID))) ==> aq.count == old(aq.count)
+//@   ensures[C13:v1] forall(0, int(old(aq.count)), func(j int) bool { return vdefView(aq, j).Mtype == old(vdefView(aq, j)).Mtype && vdefView(aq, j).State == old(vdefView(aq, j)).State && vdefView(aq, j).Pktid == old(vdefView(aq, j)).Pktid })
+//@   ensures[C13:v2] forall(0, int(old(aq.count)), func(j int) bool { return vdefView(aq, j).Msgbuf == old(vdefView(aq, j)).Msgbuf })
+//@   ensures[C13:v3] forall(0, int(old(aq.count)), func(j int) bool { return vdefView(aq, j).Ackbuf == old(vdefView(aq, j)).Ackbuf })
+//@   ensures[C13:v4] forall(0, int(old(aq.count)), func(j int) bool { return vdefView(aq, j).OnComplete == old(vdefView(aq, j)).OnComplete })
+//@   ensures[C13:entry] aq.count == old(aq.count)+1 ==> vdefView(aq, old(aq.count)).State == message.RESERVED && vdefView(aq, old(aq.count)).OnComplete == onComplete && int(vdefView(aq, old(aq.count)).Pktid) == old(message.vspecPacketID(ifaceval(msg, *message.header).packetID))
+//@        && fresh(arr(vdefView(aq, old(aq.count)).Msgbuf))
+//@   ensures[C13:bufs] preservedarrays(aq.ring[0].Msgbuf)
+//@   modifies aq.size, aq.mask, aq.ring, aq.head, aq.tail, aq.count, aq.emap, aq.ping, elems(aq.ring), mapof(aq.emap), heap("F.message.header.remlen"), heap("F.message.header.dirty"), heap("F.message.header.packetID"), message.gPacketID
+
+// Acked: hands back the answered ping (if any) followed by the maximal prefix of the FIFO whose entries have reached
+// a terminal state, and removes exactly those. P = 1 if a ping answer is returned first, else 0.
+//@ define vdefP(aq)
+//@   is ite(aq.ping.State == message.PINGRESP, 1, 0)
+
+//@ func (*Ackqueue).Acked
+//@   requires vdefAQ(aq) && !held(addr(aq.mu)) && (arr(aq.ackdone) != arr(aq.ring))
+//@   loop 1 invariant[geom] vdefAQ(aq) && aq.size == old(aq.size) && sameslice(aq.ring, old(aq.ring)) && aq.emap == old(aq.emap) && arr(aq.ackdone) != arr(aq.ring) && held(addr(aq.mu))
+//@   loop 1 invariant[cnt] old(vdefP(aq)) <= len(aq.ackdone) && len(aq.ackdone)-old(vdefP(aq)) <= int(old(aq.count)) && aq.count == old(aq.count)-int64(len(aq.ackdone)-old(vdefP(aq))) && aq.head == vspecWrap(old(aq.head)+int64(len(aq.ackdone)-old(vdefP(aq))), aq.size)
+//@   loop 1 invariant[out1] forall(0, len(aq.ackdone)-old(vdefP(aq)), func(j int) bool { return aq.ackdone[old(vdefP(aq))+j].Mtype == old(vdefView(aq, j)).Mtype && aq.ackdone[old(vdefP(aq))+j].State == old(vdefView(aq, j)).State && aq.ackdone[old(vdefP(aq))+j].Pktid == old(vdefView(aq, j)).Pktid && vspecTerminal(aq.ackdone[old(vdefP(aq))+j].State) })
+//@   loop 1 invariant[out2] forall(0, len(aq.ackdone)-old(vdefP(aq)), func(j int) bool { return aq.ackdone[old(vdefP(aq))+j].Msgbuf == old(vdefView(aq, j)).Msgbuf })
+//@   loop 1 invariant[out3] forall(0, len(aq.ackdone)-old(vdefP(aq)), func(j int) bool { return aq.ackdone[old(vdefP(aq))+j].Ackbuf == old(vdefView(aq, j)).Ackbuf })
+//@   loop 1 invariant[out4] forall(0, len(aq.ackdone)-old(vdefP(aq)), func(j int) bool { return aq.ackdone[old(vdefP(aq))+j].OnComplete == old(vdefView(aq, j)).OnComplete })
+//@   loop 1 invariant[ping] old(vdefP(aq)) == 1 ==> aq.ackdone[0] == old(aq.ping)
+//@   loop 1 invariant[rest] forall(0, int(aq.size), func(i int) bool { return vspecInRing(int64(i), aq.head, aq.count, aq.size) ==> aq.ring[i] == old(aq.ring[i]) })
+//@   loop 1 invariant[bytes] preservedarrays(aq.ring[0].Msgbuf) && preservedexcept(aq.ring, aq.ackdone) && preservedmapsexcept(aq.emap)
+//@   loop 1 invariant[ad] fresh(arr(aq.ackdone)) || (arr(aq.ackdone) == arr(old(aq.ackdone)) && off(aq.ackdone) == off(old(aq.ackdone)) && cap(aq.ackdone) == cap(old(aq.ackdone)))
+//@   loop 1 invariant[window] unchangedoutside(aq.ring, 0, len(aq.ring)) && unchangedoutside(old(aq.ackdone), 0, cap(old(aq.ackdone)))
+//@   loop 1 decreases aq.count
+//@   ensures[C13:wf] vdefAQ(aq) && aq.size == old(aq.size)
+//@   ensures[C13:len] sameslice(result, aq.ackdone) && old(vdefP(aq)) <= len(result) && len(result)-old(vdefP(aq)) <= int(old(aq.count)) && aq.count == old(aq.count)-int64(len(result)-old(vdefP(aq)))
+//@   ensures[C13:fifo] forall(0, len(result)-old(vdefP(aq)), func(j int) bool { return result[old(vdefP(aq))+j] == old(vdefView(aq, j)) && vspecTerminal(result[old(vdefP(aq))+j].State) })
+//@   ensures[C13:maximal] aq.count == 0 || !vspecTerminal(old(vdefView(aq, len(result)-vdefP(aq))).State)
+//@   ensures[C13:rest] forall(0, int(aq.count), func(j int) bool { return vdefView(aq, j) == old(vdefView(aq, len(result)-vdefP(aq)+j)) })
+//@   ensures[C13:ping] old(vdefP(aq)) == 1 ==> result[0] == old(aq.ping) && aq.ping.State == message.RESERVED
+//@   ensures[C13:bufs] preservedarrays(aq.ring[0].Msgbuf)
+//@   modifies aq.head, aq.count, aq.ackdone, aq.ping, elems(aq.ring), capelems(aq.ackdone), mapof(aq.emap)
